@@ -96,15 +96,21 @@ func ReadHeaders(resp *protocol.Response, r network.Reader) error {
 	if err != nil {
 		return err
 	}
-	// A server may send more than one interim "100 Continue" before the final
-	// response (RFC 7231 section 6.2): skip all of them.
-	for resp.Header.StatusCode() == consts.StatusContinue {
+	// A server may send any number of interim responses before the final one
+	// (RFC 7231 section 6.2): skip all of them. Only the registered interim codes
+	// are taken for interim: 100 Continue, 102 Processing, 103 Early Hints
+	// (101 Switching Protocols ends the HTTP/1.1 exchange).
+	for isInterim(resp.Header.StatusCode()) {
 		// Read the next response according to http://www.w3.org/Protocols/rfc2616/rfc2616-sec8.html .
 		if err = ReadHeader(&resp.Header, r); err != nil {
 			return err
 		}
 	}
 	return nil
+}
+
+func isInterim(statusCode int) bool {
+	return statusCode == consts.StatusContinue || statusCode == consts.StatusProcessing || statusCode == 103 // 103: Early Hints (RFC 8297), no constant of its own
 }
 
 // ReadHeaderAndLimitBody ...
